@@ -2,6 +2,12 @@
 from . import searchfam, search_oracles as so
 from .c01 import RULE
 
+RULE_C04 = (RULE + '; plus cases with n_designs = 50 (many retained designs) and windows shorter than the data; plus one data '
+            'object shared by two successive analyses, the second with a shorter window. For every returned design at every '
+            'position: diag.x / diag.y are compared bit for bit with the sums of the raw input rows of the reported geo IDs over '
+            'the most recent n_pretest_max dates; corr, required impact, the four test outcomes and the score tuple are compared '
+            'with a fresh TBRMMDiagnostics / TBRMMScore built from those two series; the score object must hold the same series')
+
 
 def oracle(ck, case, out):
   for which in ('exhaustive', 'greedy'):
@@ -26,15 +32,67 @@ def many_designs(ck, tier):
   return out
 
 
+def shared_data_worker(case):
+  """One TBRMMData object used by two successive analyses, the second with a shorter window."""
+  from matched_markets.methodology import tbrmmdata, tbrmmdesignparameters as P, tbrmatchedmarkets as MM
+  from . import search
+  try:
+    par = dict(search.finish_params(case))
+    nd = case['n_dates']
+    n1, n2 = nd, max(par['n_test'] + 6, nd - 7)
+    data = tbrmmdata.TBRMMData(search.frame_of(case), 'response', search.elig_of(case))
+    fails = []
+    for npm in (n1, n2):
+      p = dict(par, n_pretest_max=npm)
+      mm = MM.TBRMatchedMarkets(data, P.TBRMMDesignParameters(**{k: (tuple(v) if isinstance(v, list) else v) for k, v in p.items()}))
+      geos = [str(g) for g in case_geo_order(case)]
+      c2 = dict(case, par_final=p)
+      for which in ('exhaustive', 'greedy'):
+        try:
+          res = mm.exhaustive_search() if which == 'exhaustive' else mm.greedy_search()
+        except ValueError:
+          continue
+        gi = list(mm.data.geo_index)
+        r = {'outcome': 'ok', 'designs': [search.design_record(d, geos, gi) for d in res]}
+        for f in so.c04_diag(c2, {'geos': geos}, r, which):
+          fails.append('shared data object, analysis with n_pretest_max=%d after one with %d, %s search: %s' % (npm, n1, which, f))
+          break
+    return fails
+  except ValueError:
+    return []
+  except Exception:
+    import traceback
+    return ['harness error: ' + traceback.format_exc()[-400:]]
+
+
+def case_geo_order(case):
+  means = [(sum(r) / len(r), g + 1) for g, r in enumerate(case['rows'])]
+  return [g for _, g in sorted(means, key=lambda t: -t[0])]
+
+
+def shared_stage(ck, tier):
+  from . import search, common
+  n = 30 if tier == 'quick' else 600
+  cases = []
+  for k in range(n):
+    c = search.gen_case(ck.seed * 29 + 9000 + k, tier, max_geos=5)
+    c['par']['n_designs'] = 5
+    c['par']['n_pretest_max'] = 90
+    cases.append(c)
+  res = common.pmap(shared_data_worker, cases, chunksize=2)
+  for c, fails in zip(cases, res):
+    for f in fails[:1]:
+      if f.startswith('harness error'):
+        ck.tie_broken('harness', 'harness error', f)
+      else:
+        ck.fail('diagnostics-mismatch', f, {'case': searchfam.slim(c), 'shared_data': True})
+  ck.cov['shared_data_object_cases'] = len(cases)
+
+
 def run(tier):
   return searchfam.run_family(
-      'C04', tier, 'props/C04.v', ['exhaustive', 'greedy'], oracle, 90, 1800,
-      RULE + '; plus cases with n_designs = 50 (many retained designs) and windows shorter than the data. For every returned '
-      'design at every position: diag.x / diag.y are compared bit for bit with the sums of the raw input rows of the '
-      'reported geo IDs over the most recent n_pretest_max dates; corr, required impact, the four test outcomes and the '
-      'score tuple are compared with a fresh TBRMMDiagnostics / TBRMMScore built from those two series; the score object '
-      'must hold the same series',
-      extra_cases=many_designs,
+      'C04', tier, 'props/C04.v', ['exhaustive', 'greedy'], oracle, 90, 1800, RULE_C04,
+      extra_cases=many_designs, post=shared_stage,
       nontrivial=lambda c, o: bool(o.get('exhaustive', {}).get('designs')) or bool(o.get('greedy', {}).get('designs')),
       trusted_extra=['props/C04.v proves the object-level discipline (reuse + deep copies) on a hand-written store model; '
                      'its tie to the code is the executed oracle'],
@@ -42,4 +100,9 @@ def run(tier):
 
 
 def replay(data):
+  inp = data.get('input') or {}
+  if inp.get('shared_data'):
+    fails = shared_data_worker(inp['case'])
+    print('property failures:', fails or 'none')
+    return 1 if fails else 0
   return searchfam.replay_family(data, oracle)
